@@ -995,13 +995,24 @@ def _roundtrip_routes(o, case, fl, w, req, m, has_bonds, exp_bonds, decoded):
                  "bcif": write_file(arr, "bcif", case["write_intra"], extra_names)}
         from biotite.structure.io import pdbx
 
+        # the caller's extra_fields container (list, tuple or set) is one object reused for every route:
+        # reading must neither depend on nor change it
+        container = (list, tuple, set)[(len(fl["atom_name"]) + len(req)) % 3]
+        shared_req = container(req)
+        shared_before = container(shared_req)
+        o.label("extra_fields_as_" + container.__name__)
         for route in routes_for(case):
             tol = ROUTE_TOL.get(route)
             if tol is not None and not float_columns_safe(arr, tol):
                 o.label("compress_skipped_fixed_point_range_c05")
                 continue
             f2 = through_route(files["cif" if route.startswith("cif") else "bcif"], route)
-            got = pdbx.get_structure(f2, model=None if m > 0 else 1, extra_fields=list(req), include_bonds=has_bonds)
+            got = pdbx.get_structure(f2, model=None if m > 0 else 1, extra_fields=shared_req, include_bonds=has_bonds)
+            o.check(
+                shared_req == shared_before and type(shared_req) is container,
+                "reading_does_not_modify_arguments",
+                lambda: f"{route}: extra_fields changed from {shared_before!r} to {shared_req!r}",
+            )
             decoded[route] = got
             ok = compare_atoms(o, got, w, route, tol=tol)
             if has_bonds:
@@ -1191,6 +1202,9 @@ def st_altloc(tier):
         base["alt"] = alt
         base["occ"] = occ  # hundredths
         base["occ_via"] = draw(st.sampled_from(["annotation", "edit", "absent"]))
+        # the last model of a multi-model file may carry other alternate-location ids / occupancies
+        base["alt_perm"] = "".join(draw(st.permutations(["A", "B", "C"])))
+        base["occ_last"] = draw(st.lists(st.integers(0, 100), min_size=n, max_size=n))
         return base
 
     return gen()
@@ -1279,6 +1293,43 @@ def run_altloc(case):
             if letters:
                 o.expect_raises((ValueError,), lambda: pdbx.get_structure(f2, model=1, altloc="verif_bogus"),
                                 "altloc_policy_selects_matching_rows", f"{route}: bogus altloc option")
+            if m > 1 and letters and case["occ_via"] == "edit" and case.get("occ_last") is not None:
+                # alternate locations that differ between the models: a single requested model must be
+                # filtered by its own ids and occupancies
+                pm = dict(zip("ABC", case["alt_perm"]))
+                alt_last = [pm.get(a, a) for a in alt]
+                occ_last = [v / 100.0 for v in case["occ_last"]]
+                tie = False
+                for s0, e0 in spans:
+                    sums = {}
+                    for i in range(s0, e0):
+                        if alt_last[i] not in (".", "?"):
+                            sums[alt_last[i]] = sums.get(alt_last[i], 0) + case["occ_last"][i]
+                    vals = sorted(sums.values(), reverse=True)
+                    tie = tie or (len(vals) >= 2 and vals[0] == vals[1])
+                f3 = write_file(arr, kind, False, list(w["extra"]))
+                cat3 = f3.block["atom_site"]
+                alt_all3 = np.array(alt * (m - 1) + alt_last)
+                if kind == "cif":
+                    cat3["label_alt_id"] = pdbx.CIFColumn(alt_all3)
+                else:
+                    mask3 = np.where(alt_all3 == ".", MASK_INAPPLICABLE, np.where(alt_all3 == "?", MASK_MISSING, MASK_PRESENT)).astype(np.uint8)
+                    cat3["label_alt_id"] = pdbx.BinaryCIFColumn(alt_all3, mask3 if mask3.any() else None)
+                cat3["occupancy"] = np.array(occ * (m - 1) + occ_last)
+                f4 = through_route(f3, route)
+                o.label("altlocs_differ_between_models")
+                for mk in (m, -1):
+                    got = pdbx.get_structure(f4, model=mk, altloc="all", extra_fields=list(req))
+                    if o.check("altloc_id" in got.get_annotation_categories(), "altloc_all_keeps_every_row", f"{route}: no altloc_id"):
+                        o.check_eq(got.altloc_id.tolist(), alt_last, "altloc_policy_selects_matching_rows", f"{route}: altloc_id of model {mk} (ids differ between models)")
+                    if not tie:
+                        got = pdbx.get_structure(f4, model=mk, altloc="occupancy", extra_fields=list(req))
+                        rows = ref_altloc_filter(fl, spans, alt_last, occ_last, "occupancy")
+                        if not compare_atoms(o, got, w, f"{route}/model={mk}/altloc=occupancy (per-model ids)", rows=rows, model=m - 1):
+                            o.fail("altloc_policy_selects_matching_rows", f"{route}: model={mk}, occupancies of the last model {occ_last}, ids {alt_last}")
+                got = pdbx.get_structure(f4, model=1, altloc="occupancy", extra_fields=list(req))
+                if not compare_atoms(o, got, w, f"{route}/model=1/altloc=occupancy (per-model ids)", rows=occ_rows, model=0):
+                    o.fail("altloc_policy_selects_matching_rows", f"{route}: model=1 of a file whose last model has other ids")
         for policy in ("first", "occupancy", "all"):
             same_decoded(o, decoded[("cif_ser", policy)], decoded[("bcif", policy)], f"altloc={policy}: cif vs bcif")
     return o
@@ -1341,7 +1392,85 @@ def _st_models(tier):
     return st_structure(tier, models=st.sampled_from([1, 2, 2, 3, 3, 4] if tier == "quick" else [1, 2, 2, 3, 4, 5, 6]), small=True)
 
 
+# --------------------------------------------------------------------------
+# large structures with many struct_conn rows (the matcher of inter-residue bonds switches its
+# algorithm with the product rows x atoms)
+# --------------------------------------------------------------------------
+def st_large_conn(tier):
+    sizes = [(300, 200), (700, 900), (1200, 1000), (1500, 1300), (1800, 1200), (2000, 1900), (2400, 2300)]
+    if tier == "thorough":
+        sizes += [(3000, 1300), (1100, 3500), (4000, 2500)]
+    return st.fixed_dictionaries(
+        {
+            "size": st.sampled_from(sizes),
+            "jitter": st.tuples(st.integers(0, 150), st.integers(0, 150)),
+            "seed": st.integers(0, 2**31 - 1),
+            "kind": st.sampled_from(["bcif", "bcif", "cif"]),
+            "models": st.sampled_from([0, 0, 2]),
+        }
+    )
+
+
+def run_large_conn(case):
+    import biotite.structure as struc
+    from biotite.structure.io import pdbx
+
+    o = Outcome()
+    n = case["size"][0] + case["jitter"][0]
+    nb = case["size"][1] + case["jitter"][1]
+    rng = np.random.default_rng(case["seed"])
+    arr = struc.AtomArray(n)
+    arr.coord = rng.uniform(-50, 50, size=(n, 3)).astype(np.float32)
+    arr.chain_id[:] = "A"
+    arr.res_id[:] = np.arange(1, n + 1)
+    # residue names unknown to the component dictionary: no bond is added or left out on their account
+    arr.res_name[:] = "UNL"
+    arr.atom_name[:] = "X1"
+    arr.element[:] = "C"
+    arr.hetero[:] = True
+    pairs = set()
+    while len(pairs) < nb:
+        i, j = (int(v) for v in rng.integers(0, n, size=2))
+        if i != j:
+            pairs.add((min(i, j), max(i, j)))
+    pairs = sorted(pairs)
+    # types struct_conn carries faithfully (open finding C04-F1: other orders come back as SINGLE)
+    types = rng.choice([int(struc.BondType.SINGLE), int(struc.BondType.COORDINATION)], size=len(pairs))
+    want = {p: int(t) for p, t in zip(pairs, types)}
+    arr.bonds = struc.BondList(n, np.array([[i, j, t] for (i, j), t in want.items()], dtype=np.int64))
+    m = case["models"]
+    obj = arr if m == 0 else struc.stack([arr] * m)
+    product = nb * n
+    o.label("rows_x_atoms<1e6" if product < 1_000_000 else ("rows_x_atoms_1e6..4e6" if product <= 4_000_000 else "rows_x_atoms>4e6"))
+    o.label("kind=" + case["kind"], "stack" if m else "array")
+    with warnings.catch_warnings():
+        warnings.simplefilter("ignore")
+        f = pdbx.CIFFile() if case["kind"] == "cif" else pdbx.BinaryCIFFile()
+        pdbx.set_structure(f, obj, include_bonds=True)
+        f2 = through_route(f, "cif_ser" if case["kind"] == "cif" else "bcif")
+        got = pdbx.get_structure(f2, model=None if m else 1, include_bonds=True)
+    o.check_eq(got.array_length(), n, "same_atoms_same_order", "number of atoms")
+    if o.check(got.bonds is not None, "same_typed_bonds", "no BondList"):
+        gb = got_bonds(got)
+        if gb != want:
+            missing = sorted(set(want) - set(gb))[:5]
+            extra = sorted(set(gb) - set(want))[:5]
+            wrong = [(k, gb[k], want[k]) for k in sorted(set(gb) & set(want)) if gb[k] != want[k]][:5]
+            o.fail("same_typed_bonds", f"{n} atoms, {nb} inter-residue bonds: missing {missing}, invented {extra}, wrong type {wrong}")
+    o.mark_nontrivial()
+    return o
+
+
 SUBS = [
+    Sub(
+        "large_struct_conn",
+        st_large_conn,
+        run_large_conn,
+        quick=40,
+        thorough=600,
+        rule="300..2500 single-atom residues with 200..2500 random inter-residue bonds (rows x atoms below 1e6, between 1e6 and 4e6, above 4e6)",
+        clauses="same set of typed bonds for large struct_conn tables (both matching algorithms)",
+    ),
     Sub(
         "roundtrip",
         _st_roundtrip,
